@@ -180,7 +180,7 @@ class gcnc_base(PseudoNetCDFFile):
         return outf
 
     def stack(self, other, dimkey):
-        from collections import Iterable
+        from collections.abc import Iterable
         outf = self._copywith(props=True, dimensions=False)
         if isinstance(other, Iterable):
             pfiles = other
